@@ -103,13 +103,16 @@ def run(prog, rep):
         def init(it_, fr):
             it_.n_fresh = 0
             it_.facts = [le(B, P), le(P, E), le(1, B)]
+            ptrs = [p for p in f.params if 't' in p and f.type(p).replace('const ', '').strip() == 'char *']
+            if len(ptrs) != 2:
+                raise AnalysisBroken('R14.1: %s no longer takes a (cursor, end) pair of char pointers' % f.id[:80])
             for p in f.params:
-                if p['n'] == 'pos':
+                if p is ptrs[0]:
                     fr.env[p['d']] = P
-                elif p['n'] == 'endPos':
+                elif p is ptrs[1]:
                     fr.env[p['d']] = E
                 else:
-                    fr.env[p['d']] = Sym('ARG:' + p['n']) if p['n'] != 'utc' else TOP
+                    fr.env[p['d']] = TOP
         agg = {}
         n_paths = 0
         for p in it.run(f, init):
